@@ -68,8 +68,8 @@ package db
 
 // GetDocSyncData reads the document's sync metadata from the bucket (storage call: out of reach). TRUSTED frame:
 // the result is a fresh value; no object read by the functions under contract is written.
-//@ func DatabaseCollection.GetDocSyncData
-//@   trusted
+// (The contract of DatabaseCollection.GetDocSyncData is now in /repo/db/zz_verif_c09.go, tagged C09 C13: a path
+// contract without requires / modifies / ensures, so callers here see the same frame as before: nothing written.)
 
 // collectionRevisionCache.GetActive forwards to the revision cache (interface RevisionCache: LRU, sharded LRU or
 // bypass), which reads the document from the bucket and may insert / evict cache entries. TRUSTED frame: only
